@@ -40,8 +40,43 @@
      executing a child is the effect analysis tied in Tie/C05 (no reachable write to a
      Template field outside newTemplate).  The example C10_example_parent_direct shows the
      base of the example set rendering its own defaults. *)
+(* ---- second part (statements appended below) ---- *)
+(* Property C10 - template inheritance, second part: WHAT A CHILD WRITES OUTSIDE ITS BLOCKS IS
+   IGNORED, as a non-interference statement.
+
+   Two templates that are the same except for the root node lists (the text, variables and
+   tags written at top level) of the members of their inheritance chains that extend something
+   render identically: the same output, the same outcome, the same final state - from every
+   state, with every context, at every fuel, whatever the documents contain (blocks nested in
+   blocks, block.Super, macros, includes of other templates, lazy includes, ssi).
+   Definitions: Spec/SpecInherit2.v (same_but_root, drop_child_roots, with_root_at, the
+   "alike" relations, tower), Spec/SpecInherit.v (depth).
+
+   What each theorem contributes:
+   - C10_outside_blocks_ignored (tags' entry point exec_template),
+     C10_outside_blocks_ignored_unbuffered (Template.execute) and C10_outside_blocks_ignored_api
+     (the API entry point run_template): same_but_root t1 t2 gives equal results.  A template
+     without parent is same_but_root only to itself (its root nodes ARE the document), so the
+     statement says something exactly for children.  The bound depth <= 1001 is the bound of
+     C10_chain: the executor's walk up the chain is 1000 steps.
+   - C10_depth_bound_needed: the bound cannot be dropped - for a chain of 1002 members the
+     model executes the root nodes of member 1001 (a child), so two templates that differ only
+     there render "x" and "".  (A finding about the model's bounded walk, not about pongo2.)
+   - C10_root_nodes_unused: replacing the root nodes of ALL members that have a parent by
+     nothing does not change the result; C10_root_nodes_unused_at: replacing the root nodes of
+     any ONE such member (k levels up) by anything does not change it.
+   - How it is proved, stated in its own right: C10_exec_respects_alike / C10_eval_respects_alike
+     / C10_include_respects_alike - two states that differ only in the parts of the templates on
+     their frames' chains that the executor never reads (root nodes, parent, exported macros;
+     relation state_alike) give the same output / value and again alike states, for node lists,
+     expressions, and the execution of any (one) template from a tag.  This is one simulation
+     over all 17 mutually recursive executor functions, nothing left out (includes and ssi
+     re-enter the executor with the SAME template on both sides, so they are covered).
+     C10_root_frames_alike: the states in which the documents of t1 and t2 start are alike. *)
 From PV Require Import Model.Exec Model.Api Spec.SpecComposeExamples Spec.SpecInherit.
 From PV Require Import Tie.C10.
+From PV Require Import Model.Exec Model.Api Spec.SpecComposeExamples Spec.SpecInherit Spec.SpecInherit2.
+From PV Require Import Tie.C10b.
 Open Scope N_scope.
 
 Theorem C10_chain : forall t, (depth t <= 1001)%nat -> tpl_chain t = chain_of t.
@@ -267,4 +302,113 @@ Example C10_example_super_expr :
   | LexOk (_ :: b :: c :: d :: _) => pexpr (mkCfg [] [] [] []) [b; c; d]
   | _ => Unmod
   end = Ok (super_expr, []).
+Proof. vm_compute. reflexivity. Qed.
+
+
+(* ==================== second part ==================== *)
+
+Theorem C10_outside_blocks_ignored : forall se globals t1 t2 f st ctx,
+  same_but_root t1 t2 -> (depth t1 <= 1001)%nat ->
+  exec_template se globals f st t1 ctx = exec_template se globals f st t2 ctx.
+Proof. exact outside_blocks_ignored. Qed.
+Print Assumptions C10_outside_blocks_ignored.
+
+Theorem C10_outside_blocks_ignored_unbuffered : forall se globals t1 t2 f st ctx,
+  same_but_root t1 t2 -> (depth t1 <= 1001)%nat ->
+  exec_template_unbuffered se globals f st t1 ctx = exec_template_unbuffered se globals f st t2 ctx.
+Proof. exact outside_blocks_ignored_unbuffered. Qed.
+Print Assumptions C10_outside_blocks_ignored_unbuffered.
+
+Theorem C10_outside_blocks_ignored_api : forall w t1 t2 g ctx,
+  same_but_root t1 t2 -> (depth t1 <= 1001)%nat ->
+  run_template w t1 g ctx = run_template w t2 g ctx.
+Proof. exact run_template_outside_blocks_ignored. Qed.
+Print Assumptions C10_outside_blocks_ignored_api.
+
+Theorem C10_depth_bound_needed :
+  let se := mkSenv [] (mkCfg [] [] [] []) false false in
+  let base := Tpl 0 [] true [NTemplatetag [98] (* b *)] [] [] None false false in
+  let t1 := tower 1001 [NTemplatetag [120] (* x *)] base in
+  let t2 := tower 1001 [] base in
+  same_but_root t1 t2 /\ depth t1 = 1002%nat /\
+  fst (exec_template se [] 10 (mkM [] [] (mkG 1 [])) t1 []) = [120] (* x *) /\
+  fst (exec_template se [] 10 (mkM [] [] (mkG 1 [])) t2 []) = [].
+Proof. exact depth_bound_needed. Qed.
+Print Assumptions C10_depth_bound_needed.
+
+Theorem C10_root_nodes_unused : forall se globals t f st ctx, (depth t <= 1001)%nat ->
+  exec_template se globals f st (drop_child_roots t) ctx = exec_template se globals f st t ctx /\
+  exec_template_unbuffered se globals f st (drop_child_roots t) ctx =
+    exec_template_unbuffered se globals f st t ctx.
+Proof. exact root_nodes_unused. Qed.
+Print Assumptions C10_root_nodes_unused.
+
+Theorem C10_root_nodes_unused_at : forall se globals k r t f st ctx, (depth t <= 1001)%nat ->
+  exec_template se globals f st (with_root_at k r t) ctx = exec_template se globals f st t ctx /\
+  exec_template_unbuffered se globals f st (with_root_at k r t) ctx =
+    exec_template_unbuffered se globals f st t ctx.
+Proof. exact root_nodes_unused_at. Qed.
+Print Assumptions C10_root_nodes_unused_at.
+
+Theorem C10_exec_respects_alike : forall se globals f a b ns,
+  state_alike a b -> xres_alike (exec_nodes se globals f a ns) (exec_nodes se globals f b ns).
+Proof. exact exec_nodes_respects_alike. Qed.
+Print Assumptions C10_exec_respects_alike.
+
+Theorem C10_eval_respects_alike : forall se globals f a b e,
+  state_alike a b -> vres_alike (eval se globals f a e) (eval se globals f b e).
+Proof. exact eval_respects_alike. Qed.
+Print Assumptions C10_eval_respects_alike.
+
+Theorem C10_include_respects_alike : forall se globals f a b t ctx,
+  state_alike a b ->
+  xres_alike (exec_template se globals f a t ctx) (exec_template se globals f b t ctx).
+Proof. exact exec_template_respects_alike. Qed.
+Print Assumptions C10_include_respects_alike.
+
+Theorem C10_root_frames_alike : forall globals st t1 t2 ctx, same_but_root t1 t2 ->
+  state_alike (enter globals st t1 ctx) (enter globals st t2 ctx).
+Proof. exact sbr_enter_alike. Qed.
+Print Assumptions C10_root_frames_alike.
+
+(* the two ways of editing child root nodes give templates the theorems relate *)
+Theorem C10_edits_are_same_but_root : forall t,
+  same_but_root t (drop_child_roots t) /\ forall k r, same_but_root t (with_root_at k r t).
+Proof. exact edits_same_but_root. Qed.
+Print Assumptions C10_edits_are_same_but_root.
+
+(* ---------- non-vacuity ---------- *)
+(* the compiled grandchild "leaf" of the example set c10_world (Spec/SpecComposeExamples.v):
+   depth 3; it writes 6 nodes outside its blocks ("ignored", {{ nosuch }}, the extends and
+   block tags) and its parent "mid" 4; drop_child_roots removes them all at both levels *)
+Example C10_example_outside_text :
+  match compile_file (world_senv c10_world) big_fuel [108; 101; 97; 102] (* leaf *) g0 with
+  | Ok (t, _) =>
+      Some (depth t, length (tpl_root t), option_map (fun p => length (tpl_root p)) (tpl_parent t),
+            length (tpl_root (drop_child_roots t)),
+            option_map (fun p => length (tpl_root p)) (tpl_parent (drop_child_roots t)))
+  | _ => None
+  end = Some (3%nat, 6%nat, Some 4%nat, 0%nat, Some 0%nat).
+Proof. vm_compute. reflexivity. Qed.
+
+(* ... and renders the same with its own root nodes, without any child root nodes, and with
+   the root nodes of "mid" replaced by a "!" *)
+Example C10_example_renders_same :
+  match compile_file (world_senv c10_world) big_fuel [108; 101; 97; 102] (* leaf *) g0 with
+  | Ok (t, _) =>
+      Some (run_template c10_world t g0 [], run_template c10_world (drop_child_roots t) g0 [],
+            run_template c10_world (with_root_at 1 [NTemplatetag [33] (* ! *)] t) g0 [])
+  | _ => None
+  end = let out := OOk [60; 65; 49; 91; 65; 48; 73; 50; 93; 124; 67; 50; 40; 67; 49; 40; 67; 48; 41; 41; 124; 76; 50; 76; 50; 62] (* <A1[A0I2]|C2(C1(C0))|L2L2> *) in
+        Some (out, out, out).
+Proof. vm_compute. reflexivity. Qed.
+
+(* at the bound (1001 chain members) the towers of C10_depth_bound_needed do render the base *)
+Example C10_example_at_the_bound :
+  let se := mkSenv [] (mkCfg [] [] [] []) false false in
+  let base := Tpl 0 [] true [NTemplatetag [98] (* b *)] [] [] None false false in
+  (depth (tower 1000 [NTemplatetag [120] (* x *)] base),
+   fst (exec_template se [] 10 (mkM [] [] (mkG 1 [])) (tower 1000 [NTemplatetag [120] (* x *)] base) []),
+   fst (exec_template se [] 10 (mkM [] [] (mkG 1 [])) (tower 1000 [] base) [])) =
+  (1001%nat, [98] (* b *), [98] (* b *)).
 Proof. vm_compute. reflexivity. Qed.
